@@ -13,10 +13,10 @@ from . import core, train, rulesets, ptq, expand, segment
 
 POOLS = {
     'ascii': dict(words=['pass', 'word', 'love', 'monkey', 'dragon'], digits=['1', '12', '123', '2019', '007', '19871987'],
-                  syms=['!', '!!', ' ', '$%'], walks=['qwer1234', '1qaz2wsx', 'asdf'], ctx=['#1', '<3', 'No.1'],
+                  syms=['!', '!!', ' ', '$%'], walks=['qwer1234', '1qaz2wsx', 'asdf', '1qaz', 'zaq1'], ctx=['#1', '<3', 'No.1'],
                   emails=['bob@aol.com', 'a.b@gmail.com'], sites=['www.google.com', 'example.org']),
     'cyrillic': dict(words=['пароль', 'любовь', 'привет', 'солнце'], digits=['1', '12', '2020'], syms=['!', ' '],
-                     walks=['йцук12'], ctx=['#1'], emails=[], sites=[]),
+                     walks=['йцук12', '1йфя', 'яфй1'], ctx=['#1'], emails=[], sites=[]),
     'latin1': dict(words=['été', 'straße', 'señor', 'über'], digits=['1', '99'], syms=['!', '§', ' '], walks=[], ctx=['<3'],
                    emails=[], sites=[]),
     'greek': dict(words=['αγάπη', 'κωδικός', 'ήλιος'], digits=['7', '21'], syms=['!', ' '], walks=[], ctx=[], emails=[], sites=[]),
@@ -43,7 +43,7 @@ def make_list(rng, pool, with_ew):
         pws += [w] * 5                    # base words (multi-word threshold 5)
     for _ in range(rng.randint(6, 14)):
         w = cap_variants(rng, rng.choice(words))
-        shape = rng.choice(['w', 'wd', 'dw', 'ww', 'www', 'sw', 'ws', 'w w', 'wdw', 'walk', 'ctx', 'd', 'wyear', 'www'])
+        shape = rng.choice(['w', 'wd', 'dw', 'ww', 'www', 'sw', 'ws', 'w w', 'wdw', 'walk', 'walk', 'ctx', 'd', 'wyear', 'www'])
         d = rng.choice(P['digits'])
         s = rng.choice(P['syms'])
         if shape == 'w':
@@ -68,6 +68,9 @@ def make_list(rng, pool, with_ew):
             pw = w + d + rng.choice(words)
         elif shape == 'walk' and P['walks']:
             pw = rng.choice(P['walks']) + rng.choice(['', w])
+            if rng.random() < 0.4:
+                k = rng.choice(P['walks'])
+                pw = k + rng.choice(['', d, s, w]) + k          # the same walk twice in one password
         elif shape == 'ctx' and P['ctx']:
             pw = w + rng.choice(P['ctx'])
         elif shape == 'wyear':
@@ -75,6 +78,11 @@ def make_list(rng, pool, with_ew):
         else:
             pw = d
         pws.append(pw[:21])
+    if P['walks']:
+        # always: one password holding the same keyboard walk twice, and the walk once more on its own
+        k = rng.choice([x for x in P['walks'] if x != 'asdf'])
+        same = [x for x in P['walks'] if len(x) == len(k) and x != k]
+        pws += [k + rng.choice(['', ' ', 'M']) + k, k, (rng.choice(same) if same else rng.choice(P['walks'])) + '!']   # separators that continue no walk
     if with_ew:
         for e in P['emails'] + P['sites']:
             pws.append(e)
@@ -101,6 +109,32 @@ def tokens(struct):
     return re.findall(r'[A-Z][0-9]*', struct)
 
 
+def segment_tallies(sections):
+    """tallies of the segmentation itself (final section list of every parsed password, captured at
+    base_structure_creation): words lower-cased, masks, digit / other / keyboard strings per length, years, context strings,
+    raw and supported base structures"""
+    from collections import Counter, defaultdict
+    out = {k: defaultdict(Counter) for k in 'ACDOK'}
+    out.update({'Y': Counter(), 'X': Counter(), 'raw': Counter(), 'base': Counter()})
+    for sl in sections:
+        labels = []
+        for text, lab in sl:
+            labels.append(lab or '?')
+            k = (lab or '?')[0]
+            if k == 'A':
+                out['A'][len(text)][text.lower()] += 1
+                out['C'][len(text)][''.join('U' if c.isupper() else 'L' for c in text)] += 1
+            elif k in 'DOK':
+                out[k][len(text)][text] += 1
+            elif k in 'YX':
+                out[k][text] += 1
+        st = ''.join(labels)
+        out['raw'][st] += 1
+        if not any(l[0] in 'EW' for l in labels):
+            out['base'][st] += 1
+    return out
+
+
 def list_traces(tid0, res, encoding, coverage, meta, desc):
     cap = res['captured']
     pp = cap['pcfg_parser']
@@ -110,12 +144,12 @@ def list_traces(tid0, res, encoding, coverage, meta, desc):
     I = {}
     ident = lambda s: I.setdefault(s, len(I) + 1)
     files = []
-    for folder, ctr in (('Alpha', pp.count_alpha), ('Capitalization', pp.count_alpha_masks), ('Digits', pp.count_digits),
-                        ('Other', pp.count_other), ('Keyboard', pp.count_keyboard)):
-        for n, c in ctr.items():
+    seg = segment_tallies(cap['sections'])
+    for folder, key in (('Alpha', 'A'), ('Capitalization', 'C'), ('Digits', 'D'), ('Other', 'O'), ('Keyboard', 'K')):
+        for n, c in seg[key].items():
             files.append((os.path.join(folder, '%d.txt' % n), c, encoding))
-    files += [(os.path.join('Years', '1.txt'), pp.count_years, encoding), (os.path.join('Context', '1.txt'), pp.count_context_sensitive, encoding),
-              (os.path.join('Grammar', 'raw_grammar.txt'), pp.count_raw_base_structures, 'ascii'),
+    files += [(os.path.join('Years', '1.txt'), seg['Y'], encoding), (os.path.join('Context', '1.txt'), seg['X'], encoding),
+              (os.path.join('Grammar', 'raw_grammar.txt'), seg['raw'], 'ascii'),
               (os.path.join('Prince', 'grammar.txt'), pp.count_prince, 'ascii'),
               (os.path.join('Emails', 'email_providers.txt'), pp.count_email_providers, encoding),
               (os.path.join('Websites', 'website_hosts.txt'), pp.count_website_hosts, encoding)]
@@ -137,7 +171,9 @@ def list_traces(tid0, res, encoding, coverage, meta, desc):
     gpath = os.path.join(d, 'Grammar', 'grammar.txt')
     grecs = rulesets.neutral_value_prob(gpath, 'ascii')
     N = cap['num_valid_passwords']
-    ctr = pp.count_base_structures
+    ctr = dict(seg['base']) if cov != 0 else {}      # coverage 0: the Markov structure is the only one
+    if 'M' in pp.count_base_structures:
+        ctr['M'] = pp.count_base_structures['M']      # the pseudo-count entry; its value is recomputed below
     scale = num if 0 < cov < 1 else 1
     tally = []
     for k, v in ctr.items():
